@@ -410,7 +410,7 @@ func drawC20Call(t *rapid.T) c20Call {
 		c.Type = rapid.SampledFrom([]string{"totp", "hotp"}).Draw(t, "type")
 		c.Issuer = drawURLString(t, "iss", false)
 		c.Account = drawURLString(t, "acc", true)
-		c.Sp = gen.Spelling{Pad: 1}
+		// the secret is copied into the URL as given: any spelling (padded, lower case, surrounded by blanks)
 	}
 	// malformed variants
 	if rapid.IntRange(0, 3).Draw(t, "malformed") == 0 {
